@@ -21,6 +21,14 @@ impl<'a> VxLexPeek<'a> {
         &&& (self.peeked matches Some(Some(kt)) ==> is_token_kind(kt.0))
         &&& (self.peeked matches Some(None) ==> self.it.input@.len() == 0)
     }
+    /// the tokens not yet yielded
+    pub open spec fn remaining(&self) -> Seq<(SyntaxKind, Seq<char>)> {
+        match self.peeked {
+            Some(Some(kt)) => seq![(kt.0, kt.1@)] + tokens_of(self.it.state(), self.it.input@),
+            Some(None) => Seq::empty(),
+            None => tokens_of(self.it.state(), self.it.input@),
+        }
+    }
     /// strictly decreases whenever `next` yields a token
     pub open spec fn measure(&self) -> nat {
         self.it.input@.len() + (if self.peeked matches Some(Some(_)) { 1nat } else { 0nat })
@@ -33,7 +41,12 @@ impl<'a> VxLexPeek<'a> {
             r is Some ==> final(self).measure() < old(self).measure() && is_token_kind(r->Some_0.0),
             r is None ==> final(self).measure() == 0 && old(self).measure() == 0,
             old(self).peeked matches Some(p) ==> r == p,
+            old(self).remaining().len() == 0 ==> r is None && final(self).remaining() == old(self).remaining(),
+            old(self).remaining().len() > 0 ==> r is Some && (r->Some_0.0, r->Some_0.1@) == old(self).remaining()[0]
+                && final(self).remaining() == old(self).remaining().skip(1)
+                && old(self).remaining() == seq![(r->Some_0.0, r->Some_0.1@)] + final(self).remaining(),
     {
+        proof { lemma_tokens_of_step(self.it.state(), self.it.input@); }
         match self.peeked.take() {
             Some(v) => v,
             None => self.it.next(),
@@ -47,7 +60,11 @@ impl<'a> VxLexPeek<'a> {
             final(self).measure() <= old(self).measure(),
             r is Some ==> final(self).peeked == Some(Some(*r->Some_0)) && is_token_kind(r->Some_0.0),
             r is None ==> final(self).measure() == 0,
+            final(self).remaining() == old(self).remaining(),
+            old(self).remaining().len() == 0 <==> r is None,
+            r is Some ==> (r->Some_0.0, r->Some_0.1@) == old(self).remaining()[0],
     {
+        proof { lemma_tokens_of_step(self.it.state(), self.it.input@); }
         if self.peeked.is_none() {
             let n = self.it.next();
             self.peeked = Some(n);
@@ -61,7 +78,22 @@ impl<'a> VxLexPeek<'a> {
 
 pub fn vx_lex_peekable<'a>(it: lex___Iter<'a>) -> (r: VxLexPeek<'a>)
     requires it.wf()
-    ensures r.wf()
+    ensures r.wf(), r.remaining() == tokens_of(it.state(), it.input@)
 {
     VxLexPeek { it, peeked: None }
+}
+
+/// unfolding tokens_of by one lexer step
+pub proof fn lemma_tokens_of_step(st: LexState, s: Seq<char>)
+    ensures
+        s.len() == 0 ==> tokens_of(st, s).len() == 0,
+        forall|k: SyntaxKind, t: Seq<char>, st2: LexState, s2: Seq<char>| #[trigger] lex_step(st, s, k, t, st2, s2)
+            ==> tokens_of(st, s) == seq![(k, t)] + tokens_of(st2, s2),
+{
+    assert forall|k: SyntaxKind, t: Seq<char>, st2: LexState, s2: Seq<char>| #[trigger] lex_step(st, s, k, t, st2, s2)
+        implies tokens_of(st, s) == seq![(k, t)] + tokens_of(st2, s2) by {
+        let n = t.len() as int;
+        assert(s.take(n) =~= t);
+        assert(s.skip(n) =~= s2);
+    }
 }
